@@ -58,6 +58,13 @@ type WorldOpts struct {
 	// SelfSet: now and then write a child container back into the slot it already occupies (Array.Set /
 	// OrderedMap.Set with the live handle, wrapped as it is stored): the library keeps the child attached
 	SelfSet bool
+	// PooledCollide > 0: percentage of the key space drawn from colliding hash-input families.  EVERY map of
+	// the world (top-level, nested, detached, reopened) then uses the library's default POOLED digester
+	// (atree.NewDefaultDigesterBuilder; Digester/RootDigester are overridden) and the world's own
+	// HashInputProvider (World.Hip), which forces REAL first-level digest collisions (see worldpool.go).
+	// The storage then decodes with MaxNestedLevels 1024 (collision groups inside nested inlined maps nest
+	// deeper than the CBOR default of 32, DESIGN 7.3).  0 = current behaviour (testutils.GetHashInput).
+	PooledCollide int
 }
 
 type World struct {
@@ -71,6 +78,8 @@ type World struct {
 	Rep   *Report
 	// hooks
 	Fail func(what, detail string)
+	// pooled-collision mode (Opts.PooledCollide > 0), see worldpool.go
+	pool *worldPool
 }
 
 func NewWorld(base *LogBase, rng *Rng, opts WorldOpts, rep *Report) *World {
@@ -83,8 +92,16 @@ func NewWorld(base *LogBase, rng *Rng, opts WorldOpts, rep *Report) *World {
 	if opts.RootDigester == nil {
 		opts.RootDigester = opts.Digester
 	}
-	w := &World{St: newStorage(base), Base: base, Rng: rng, Opts: opts, Addr: mkAddr(opts.Addr), Rep: rep}
+	if opts.PooledCollide > 0 {
+		opts.Digester = func() atree.DigesterBuilder { return atree.NewDefaultDigesterBuilder() }
+		opts.RootDigester = opts.Digester
+	}
+	w := &World{Base: base, Rng: rng, Opts: opts, Addr: mkAddr(opts.Addr), Rep: rep}
 	w.Fail = func(what, detail string) { panic(what + ": " + detail) }
+	if opts.PooledCollide > 0 {
+		w.setupPool()
+	}
+	w.St = w.openStorage()
 	return w
 }
 
@@ -157,8 +174,11 @@ func randStr(r *Rng, n int) string {
 }
 
 func (w *World) randKey() atree.Value {
-	r := w.Rng
-	k := r.Intn(w.Opts.KeySpace)
+	return w.keyFor(w.Rng.Intn(w.Opts.KeySpace))
+}
+
+// keyFor is the k-th key of the world's key space (a pure function of k and the options).
+func (w *World) keyFor(k int) atree.Value {
 	if w.Opts.LargeVals && k%11 == 5 {
 		// a key above the inline key limit: stored in its own slab, the element holds a reference as KEY
 		return testutils.NewStringValue(fmt.Sprintf("K%03d%s", k, strings.Repeat("y", int(atree.MaxInlineMapKeySize())+k%9)))
@@ -333,7 +353,7 @@ func (w *World) selfSetMap(sm *svMap) bool {
 	}
 	k := ks[w.Rng.Intn(len(ks))]
 	v, _ := liveValue(sm.vals[keyStr(k)])
-	old, err := sm.m.Set(testutils.CompareValue, testutils.GetHashInput, k, v)
+	old, err := sm.m.Set(testutils.CompareValue, w.Hip(), k, v)
 	if err != nil || old == nil {
 		w.Fail("C10: writing a child container back under its own map key failed", fmt.Sprint(err))
 	}
@@ -382,7 +402,7 @@ func (w *World) arrRemove(sa *svArr, i uint64) {
 
 func (w *World) mapSet(sm *svMap, k atree.Value, depth int) {
 	v, s := w.newValue(depth)
-	old, err := sm.m.Set(testutils.CompareValue, testutils.GetHashInput, k, v)
+	old, err := sm.m.Set(testutils.CompareValue, w.Hip(), k, v)
 	if err != nil {
 		w.Fail("C02: map set failed", err.Error())
 		return
@@ -404,7 +424,7 @@ func (w *World) mapSet(sm *svMap, k atree.Value, depth int) {
 func (w *World) mapRemove(sm *svMap, k atree.Value) {
 	ks := keyStr(k)
 	prev, had := sm.vals[ks]
-	kst, vst, err := sm.m.Remove(testutils.CompareValue, testutils.GetHashInput, k)
+	kst, vst, err := sm.m.Remove(testutils.CompareValue, w.Hip(), k)
 	if !had {
 		var knf *atree.KeyNotFoundError
 		if err == nil || !asErr(err, &knf) {
@@ -431,27 +451,29 @@ func (w *World) mapRemove(sm *svMap, k atree.Value) {
 type contRef struct {
 	s     SV
 	depth int
+	pmap  *svMap      // parent map (nil: root, or element of an array)
+	pkey  atree.Value // key of the slot in pmap
 }
 
 func (w *World) containers() []contRef {
 	var out []contRef
-	var rec func(s SV, d int)
-	rec = func(s SV, d int) {
+	var rec func(s SV, d int, pm *svMap, pk atree.Value)
+	rec = func(s SV, d int, pm *svMap, pk atree.Value) {
 		switch c := unwrapSV(s).(type) {
 		case *svArr:
-			out = append(out, contRef{c, d})
+			out = append(out, contRef{c, d, pm, pk})
 			for _, e := range c.elems {
-				rec(e, d+1)
+				rec(e, d+1, nil, nil)
 			}
 		case *svMap:
-			out = append(out, contRef{c, d})
+			out = append(out, contRef{c, d, pm, pk})
 			for _, k := range c.keys {
-				rec(c.vals[keyStr(k)], d+1)
+				rec(c.vals[keyStr(k)], d+1, c, k)
 			}
 		}
 	}
 	for _, r := range w.Roots {
-		rec(r, 0)
+		rec(r, 0, nil, nil)
 	}
 	return out
 }
@@ -470,6 +492,9 @@ func (w *World) Step() string {
 		for k := 0; k < 4 && c.depth == 0; k++ {
 			c = cs[r.Intn(len(cs))]
 		}
+	}
+	if w.pool != nil {
+		w.notePooledTarget(c)
 	}
 	switch x := c.s.(type) {
 	case *svArr:
@@ -692,12 +717,15 @@ func (w *World) Compare(s SV, v atree.Value, path string) {
 		}
 		for k := 0; k < 3 && len(x.keys) > 0; k++ {
 			key := x.keys[w.Rng.Intn(len(x.keys))]
-			e, err := m.Get(testutils.CompareValue, testutils.GetHashInput, key)
+			e, err := m.Get(testutils.CompareValue, w.Hip(), key)
 			if err != nil {
 				w.Fail("C02: Get of a present key failed", err.Error())
 				continue
 			}
 			w.Compare(x.vals[keyStr(key)], e, fmt.Sprintf("%s{%v}", path, key))
+		}
+		if w.pool != nil {
+			w.pooledProbes(x, m, path)
 		}
 	}
 }
@@ -727,11 +755,11 @@ func (w *World) VerifyAll(health bool) {
 	for i, r := range w.Roots {
 		switch x := r.(type) {
 		case *svArr:
-			if err := atree.VerifyArray(x.arr, w.Addr, w.ti(x.ti), testutils.CompareTypeInfo, testutils.GetHashInput, true); err != nil {
+			if err := atree.VerifyArray(x.arr, w.Addr, w.ti(x.ti), testutils.CompareTypeInfo, w.Hip(), true); err != nil {
 				w.Fail("C05: VerifyArray failed", err.Error())
 			}
 		case *svMap:
-			if err := atree.VerifyMap(x.m, w.Addr, w.ti(x.ti), testutils.CompareTypeInfo, testutils.GetHashInput, true); err != nil {
+			if err := atree.VerifyMap(x.m, w.Addr, w.ti(x.ti), testutils.CompareTypeInfo, w.Hip(), true); err != nil {
 				w.Fail("C05: VerifyMap failed", err.Error())
 			}
 		}
@@ -762,7 +790,7 @@ func (w *World) Commit(workers int) {
 // Reopen abandons the storage object and re-handles every container top-down from a brand-new
 // storage over the same ledger (only valid directly after a successful commit).
 func (w *World) Reopen() {
-	w.St = newStorage(w.Base)
+	w.St = w.openStorage()
 	for _, r := range w.Roots {
 		switch x := r.(type) {
 		case *svArr:
@@ -818,7 +846,7 @@ func (w *World) rehandle(s SV, v atree.Value) {
 			e := x.vals[keyStr(k)]
 			switch unwrapSV(e).(type) {
 			case *svArr, *svMap:
-				c, err := m.Get(testutils.CompareValue, testutils.GetHashInput, k)
+				c, err := m.Get(testutils.CompareValue, w.Hip(), k)
 				if err != nil {
 					w.Fail("reopen: map Get failed", err.Error())
 					continue
